@@ -15,7 +15,7 @@ RULE = ('host models = (errno table, signal enum, address-family enum, socket-ki
         'Darwin, an empty host, and generated permutations / sparse subsets of the names; installed by swapping '
         'errno.errorcode in place and rebinding signal.Signals, socket.AddressFamily, socket.SocketKind and '
         'socket.SOL_SOCKET in their home modules and in every module global of pykdebugparser.* that is identical to '
-        'them. Cases: every BSD decoder x error codes 0..140 (sampled per run, pipe and read always), sigaction 1..31, '
+        'them. Cases: every BSD decoder x EVERY error code 1..140 x 2 (quick) / 4 (thorough) START shapes under the real host and the Darwin model (errno table and E* constants swapped); every BSD decoder x sampled codes under all five models, sigaction 1..31, '
         'socket/socketpair/socket_delegate x Darwin families x kinds 1..5, get/setsockopt with levels 0xffff/1/6/0. '
         'Oracle: (1) the rendered text is identical under every host model; (2) the names are Darwin\'s: errno and '
         'signal tables of xnu, required family names, SOCK_*, SOL_SOCKET + SO_* for level 0xffff; codes Darwin does '
@@ -46,9 +46,13 @@ def host(model):
            'SocketKind': make_enum('SocketKind', model['sock'])}
     patched = []
     mods = [m for n, m in list(sys.modules.items()) if m is not None and (n in ('signal', 'socket') or n.startswith('pykdebugparser'))]
+    saved_consts = {}
     try:
         errno.errorcode.clear()
         errno.errorcode.update(model['errno'])
+        for code, nm in model['errno'].items():       # the E* constants of the errno module follow the table
+            saved_consts[nm] = getattr(errno, nm, None)
+            setattr(errno, nm, code)
         for m in mods:
             for attr, obj in list(vars(m).items()):
                 for key, o in orig.items():
@@ -64,6 +68,11 @@ def host(model):
             setattr(m, attr, obj)
         errno.errorcode.clear()
         errno.errorcode.update(saved_err)
+        for nm, val in saved_consts.items():
+            if val is None:
+                delattr(errno, nm)
+            else:
+                setattr(errno, nm, val)
 
 
 def darwin_model():
@@ -157,7 +166,28 @@ def prop_sockopt(ctx, case):
     ctx.note([name, level, opt], nontrivial=level in (0xffff, 1), classes=['sockopt', f'level:{level:#x}'])
 
 
-PROPS = {'errno': prop_errno, 'signal': prop_signal, 'socket': prop_socket, 'sockopt': prop_sockopt}
+def prop_errno_sweep(ctx, case):
+    """one decoder x every error code 1..140 x every timed/untimed START shape, under the real host and the Darwin model"""
+    name, seed = case['name'], case['seed']
+    w = list(S.expand_words(seed + 4096, 0))
+    variants = []
+    shapes = (w, [x | 1 for x in w], [x if i < 2 else 0 for i, x in enumerate(w)], [0, 0, 0, 0])
+    for ws in (shapes[1:3] if ctx.quick else shapes):
+        d = domains.project(name, 1, ws)
+        variants.append([int.from_bytes(d[8 * i:8 * i + 8], 'little') for i in range(4)])
+    dm = darwin_model()
+    for av in variants:
+        texts = {}
+        for label, m in (('host', None), ('darwin', dm)):
+            with host(m):
+                texts[label] = [guard(render, name, av, [code, 77, 78, 79]) for code in range(1, 141)]
+        for code, th, td in zip(range(1, 141), texts['host'], texts['darwin']):
+            if th != td:
+                raise Violation(f'host-dependent:errno:{name}', f'{name} error {code}: on this host {th!r}, under the Darwin host model {td!r}')
+    ctx.note([name, 'sweep'], nontrivial=True, classes=['errno-sweep'])
+
+
+PROPS = {'errno_sweep': prop_errno_sweep, 'errno': prop_errno, 'signal': prop_signal, 'socket': prop_socket, 'sockopt': prop_sockopt}
 
 
 def run(ctx):
@@ -172,6 +202,9 @@ def run(ctx):
         for i, n in enumerate(bsd):
             cases.append({'name': n, 'code': (i * 37 + r * 11 + ctx.seed) % 141, 'seed': base + i + 1000 * r})
     ctx.run_enum('errno', cases, prop_errno, exhaustive_label='errno 0..140 through pipe and read; every BSD decoder (codes sampled)')
+    every = EV.decodable_names()['bsd']
+    sweep = [{'name': n, 'seed': base + i} for i, n in enumerate(n for n in every if n in byname)]
+    ctx.run_enum('errno_sweep', sweep, prop_errno_sweep, exhaustive_label='every BSD decoder x error codes 1..140 x 2 (quick) / 4 (thorough) START shapes (host vs Darwin model)')
     ctx.run_enum('signal', [{'sig': s, 'seed': base + s} for s in range(1, 32)], prop_signal, exhaustive_label='signals 1..31')
     so = [{'name': n, 'af': af, 'kind': k, 'seed': base + af * 7 + k}
           for n in ('BSC_socket', 'BSC_socketpair', 'BSC_socket_delegate') for af in sorted(D.AF) for k in range(1, 6)]
